@@ -64,6 +64,53 @@ def classify_conv(arm_body, guard, family):
     return "other:" + H.show(b, 3)[:60]
 
 
+def extend_appends(chk, fx, rule="extend-appends"):
+    """every extend_* arm keeps the existing value(s) first: it extends the existing collection in place, or rebuilds the value as
+    once(existing).chain(new); the existing content is never pushed / chained / inserted *after* the new values"""
+    chk.rule(rule, "PrimitiveValue::extend_*: new values are appended after the existing ones in every arm (in-place extend of the bound collection, or once(existing).chain(new))")
+    n = 0
+    for fn in ("extend_str", "extend_u16", "extend_i16", "extend_i32", "extend_u32", "extend_f32", "extend_f64"):
+        h = fx.method("dicom_core", PV, fn)
+        ms = H.matches_over(h["body"], lambda t: t == PV)
+        if len(ms) != 1:
+            raise facts.MissingAnchor(f"{fn}: match over PrimitiveValue")
+        for p, g, b, ln in H.match_arms(ms[0]):
+            binds = H.pat_bindings(p)
+            if not binds:
+                continue
+            # ignore error arms
+            if not any(H.kind(x) == "assign" or (H.kind(x) == "mcall" and x[3] in ("extend", "push", "extend_from_slice", "insert", "chain")) for x in H.walk(b)):
+                continue
+            n += 1
+            v = H.show_pat(p)[:40]
+            problems = []
+            ok_evidence = []
+
+            def mentions(node, name):
+                return any(H.kind(y) == "path" and y[3] == "local" and y[2].split("::")[-1] == name for y in H.walk(node))
+            for x in H.walk(b):
+                if H.kind(x) != "mcall":
+                    continue
+                nm = x[3]
+                for bn in binds:
+                    recv_is = H.path_of(H.peel(x[4])) == bn
+                    in_args = any(mentions(a, bn) for a in x[5])
+                    if nm in ("extend", "extend_from_slice") and recv_is and not in_args:
+                        ok_evidence.append(f"{bn}.{nm}(new)")
+                    elif nm in ("push", "extend", "extend_from_slice", "insert") and in_args and not recv_is:
+                        problems.append(f"existing `{bn}` is {nm}-ed onto another collection")
+                    elif nm == "insert" and recv_is:
+                        problems.append(f"`{bn}.insert(..)` places new values before existing ones")
+                    elif nm == "chain":
+                        recv_has = mentions(x[4], bn)
+                        if in_args and not recv_has:
+                            problems.append(f"existing `{bn}` is chained after the new values")
+                        elif recv_has and not in_args:
+                            ok_evidence.append(f"once({bn}).chain(new)")
+            chk.expect(not problems and ok_evidence, rule, fn, v, "existing first, new appended", problems or ok_evidence or "no recognised append shape", loc=f"{h['loc']['f']}:{ln}")
+    chk.floor(rule, "extending arms", n, 60)
+
+
 def run(chk, tier):
     fx = facts.load("W")
     chk.analysed["facts"] = fx.meta
@@ -219,4 +266,5 @@ def run(chk, tier):
             chk.expect(ok, "extend-truncate", "truncate", v, "depends on limit (0 -> Empty)", H.show(b, 5)[:120] if b is not None else None)
         else:
             chk.expect(len(calls) == 1, "extend-truncate", "truncate", v, "l.truncate(limit)", len(calls), loc=C.fn_loc(h))
+    extend_appends(chk, fx)
     chk.undecided.append("numeric exactness inside NumCast::from / str::parse (trusted); extend_* numeric casts are documented as lossy and out of the property")
